@@ -29,6 +29,62 @@ from . import _c02_states as ST
 from . import _c05_helpers as H
 
 INT_DT = (None, None, "int64", "int32")
+# (round 4, class 11) storage dtypes that need no integer-valued data: C05 never judges values against a reference, only
+# bit-identity of operands, independence of results and agreement of two identical calls
+ANY_DT = (None, None, None, None, None, "float32")
+
+# (round 4, class 11) how a caller presents one array argument.  'coo' / 'csr' apply to matrices only.
+ARRAY_FORMS = ("C", "F", "strided", "neg-strided", "readonly", "readonly-F", "float32", "int64", "int32")
+FACTOR_FORMS = (None, None, None, "coo", "coo", "coo", "C", "F", "strided", "readonly", "readonly-F", "float32")
+KFACTOR_FORMS = (None, None, None, None, "C", "F", "strided", "readonly", "readonly-F")  # (ktensor wants float64 factors)
+
+
+def present(a, form):
+    """the array ``a`` as a caller might hand it over: C- / Fortran-ordered, a strided or reversed view into a bigger
+    buffer, read-only, single precision, an integer dtype (integer-valued data only), or - for a matrix - a
+    scipy.sparse COO / CSR matrix.  The values are those of ``a`` (float32: rounded once)."""
+    import scipy.sparse as sp
+
+    a = np.asarray(a)
+    if form is None:
+        return a
+    if form == "C":
+        return np.ascontiguousarray(a)
+    if form == "F":
+        return np.asfortranarray(a)
+    if form == "strided" and a.ndim >= 1:
+        big = np.full(tuple(2 * n + 1 for n in a.shape), 9, dtype=a.dtype)
+        v = big[tuple(slice(1, 2 * n + 1, 2) for n in a.shape)]
+        v[...] = a
+        return v
+    if form == "neg-strided" and a.ndim >= 1:
+        back = a[tuple(slice(None, None, -1) for _ in a.shape)].copy()
+        return back[tuple(slice(None, None, -1) for _ in a.shape)]
+    if form in ("readonly", "readonly-F"):
+        b = np.array(a, order="F" if form == "readonly-F" else "C")
+        b.setflags(write=False)
+        return b
+    if form == "float32" and a.dtype.kind == "f":
+        return a.astype(np.float32)
+    if form in ("int64", "int32") and a.dtype.kind == "f":
+        return a.astype(np.dtype(form)) if a.size and np.all(np.isfinite(a)) and np.all(a == np.round(a)) and np.all(
+            np.abs(a) < 2**31) else a
+    if form == "coo" and a.ndim == 2:
+        return sp.coo_matrix(a)
+    if form == "csr" and a.ndim == 2:
+        return sp.csr_matrix(a)
+    return a
+
+
+def present_label(a) -> str:
+    import scipy.sparse as sp
+
+    if sp.issparse(a):
+        return "scipy-" + type(a).__name__
+    a = np.asarray(a)
+    out = "ro-" if not a.flags.writeable else ""
+    out += "contig" if (a.flags["C_CONTIGUOUS"] or a.flags["F_CONTIGUOUS"]) else "strided"
+    return out + ("" if a.dtype == np.float64 else "-" + str(a.dtype))
 
 
 # --------------------------------------------------------------------------
@@ -82,17 +138,31 @@ def annotate(draw, c, depth=0, mag=True):
         c["_st"] = draw(ST.dense_state(shape))
         if not c.get("_mag") and _intvalued(c["data"]):
             c["_dt"] = draw(st.sampled_from(INT_DT))
+        if not c.get("_dt") and not c.get("_mag"):
+            c["_dt"] = draw(st.sampled_from(ANY_DT))
     elif k == "sptensor" and len(shape) >= 1:
         c["_st"] = draw(ST.sparse_state(shape, len(c["subs"])))
         if not c.get("_mag") and _intvalued(c["vals"]):
             c["_dt"] = draw(st.sampled_from(INT_DT))
+        if not c.get("_dt") and not c.get("_mag"):
+            c["_dt"] = draw(st.sampled_from(ANY_DT))
     elif k == "ktensor" and len(shape) >= 1:
         c["_st"] = draw(ST.kruskal_state(shape, c["rank"]))
+        # (round 4, class 11) how the factor matrices are presented to the constructor (list / tuple; C- / F-ordered,
+        # strided, read-only): all of that is over once the constructor has
+        # copied - every object built must still be independent of what it was built from (judged in ktensor/ctor-copy)
+        c["_fp"] = [draw(st.sampled_from(KFACTOR_FORMS)) for _ in shape]
+        c["_fseq"] = draw(st.sampled_from(["list", "list", "tuple"]))
     elif k == "ttensor" and len(shape) >= 1:
         c["_st"] = draw(ST.tucker_state(dict(shape=shape, cshape=c["cshape"], core=c["core"], sparse_core=c.get("sparse_core"))))
         if not c.get("_mag") and _intvalued(c["core"]) and all(_intvalued(r) for f in c["factors"] for r in f):
             c["_dt"] = draw(st.sampled_from(INT_DT))  # core storage
             c["_fdt"] = [draw(st.sampled_from(INT_DT)) for _ in shape]  # factor matrices
+        # (round 4, class 11) factor matrices as scipy.sparse COO matrices (accepted by the constructor; they stay COO
+        # matrices inside the object, so every derived operation sees them), strided / read-only / C- or F-ordered /
+        # float32 arrays, handed over in a list or a tuple
+        c["_fp"] = [draw(st.sampled_from(FACTOR_FORMS)) for _ in shape]
+        c["_fseq"] = draw(st.sampled_from(["list", "list", "tuple"]))
     for key in list(c):
         if key.startswith("_"):
             continue
@@ -116,7 +186,14 @@ def annotated(strategy, seq=True, heavy=False):
             # data: their cases keep magnitudes of order one)
             annotate(draw, c, mag=not heavy)
             c["_aux"] = draw(st.sampled_from([None, None, None, None, "int64", "ones", "zeros", "zero-row", "F-order", "strided",
-                                              "identity", "near-identity", "tiny", "huge"]))
+                                              "identity", "near-identity", "tiny", "huge",
+                                              # (round 4, class 11) presentations of the caller's vectors / matrices
+                                              "readonly", "readonly", "float32", "int32", "neg-strided", "coo"]))
+            # (round 4, class 13) process environment: the root logger at DEBUG (with a NullHandler) while the operation
+            # runs - diagnostic output must not change what an operation does to its operands
+            # (round 4, class 11) a list of multiplicands (ttv / ttm / mttkrp) handed over as a list or as a tuple
+            c["_lseq"] = draw(st.sampled_from(["list", "list", "tuple"]))
+            c["_log"] = draw(st.sampled_from([None, None, None, None, None, "debug"]))
             if seq:
                 # second call on the same operands (most cases); primed-edit-call history (some)
                 c["_seq"] = dict(again=(draw(st.integers(0, 3)) == 0) if heavy else (draw(st.integers(0, 3)) > 0),
@@ -149,7 +226,19 @@ def build_ktensor(c):
     if "_st" not in c:
         return gen.build_ktensor(c)
     fm = [np.array(f, dtype=float).reshape(n, c["rank"]) for f, n in zip(c["factors"], c["shape"])]
+    if (c["_st"] or {}).get("how", "ctor") == "ctor" and any(c.get("_fp") or []):
+        fm = [present(f, p) for f, p in zip(fm, c["_fp"])]
+        return ttb.ktensor(tuple(fm) if c.get("_fseq") == "tuple" else fm, np.array(c["weights"], dtype=float))
     return ST.build_kruskal(np.array(c["weights"], dtype=float), fm, c["_st"])
+
+
+def tucker_factors(c):
+    """the factor matrices of a Tucker case in the presentation the case asks for (``_fdt`` storage dtype, then ``_fp``)"""
+    k = len(c["shape"])
+    fm = [np.array(f, dtype=float).reshape(n, r).astype(np.dtype(d or "float64"))
+          for f, n, r, d in zip(c["factors"], c["shape"], c["cshape"], c.get("_fdt") or [None] * k)]
+    fm = [present(f, p) for f, p in zip(fm, c.get("_fp") or [None] * k)]
+    return tuple(fm) if c.get("_fseq") == "tuple" else fm
 
 
 def build_ttensor(c):
@@ -157,8 +246,7 @@ def build_ttensor(c):
         return gen.build_ttensor(c)
     s = c["_st"]
     core = gen.arr_F(c["cshape"], c["core"])
-    fm = [np.array(f, dtype=float).reshape(n, k).astype(np.dtype(d or "float64"))
-          for f, n, k, d in zip(c["factors"], c["shape"], c["cshape"], c.get("_fdt") or [None] * len(c["shape"]))]
+    fm = tucker_factors(c)
     cdt = np.dtype(c.get("_dt") or "float64")
     if c.get("sparse_core"):
         sc = gen.sparse_case_from_dense(core)
@@ -167,7 +255,12 @@ def build_ttensor(c):
         co = ST.build_sparse(sc["subs"], sc["vals"], c["cshape"], cdt, s.get("core"), core)
     else:
         co = ST.build_dense(core.astype(cdt), s.get("core"))
-    return ttb.ttensor(co, fm, copy=s.get("how") != "core-nocopy")
+    if s.get("how") == "core-nocopy":
+        # (an explicit no-copy construction wants a list of F-ordered arrays)
+        # (copy=False with scipy COO factors fails in ttensor._matches_order: outside C05's claim, not generated)
+        fm = [np.array(f.toarray() if not isinstance(f, np.ndarray) else f, order="F") for f in fm]
+        return ttb.ttensor(co, fm, copy=False)
+    return ttb.ttensor(co, fm)
 
 
 def state_labels(c, prefix="") -> List[str]:
@@ -183,6 +276,10 @@ def state_labels(c, prefix="") -> List[str]:
             out.append(f"{prefix}dtype-{k}-{c['_dt']}")
         if k and c.get("_mag"):
             out.append(f"{prefix}mag-{k}-{c['_mag']:g}")
+        if k in ("ttensor", "ktensor") and c.get("_fp"):
+            out += [f"{prefix}factors-{k}-{p}" for p in c["_fp"] if p]
+            if c.get("_fseq") == "tuple":
+                out.append(f"{prefix}factors-{k}-in-tuple")
         for key, v in c.items():
             if key.startswith("_"):
                 continue
@@ -207,6 +304,21 @@ def object_labels(operands: Dict[str, Any]) -> List[str]:
 # --------------------------------------------------------------------------
 # auxiliary arrays
 # --------------------------------------------------------------------------
+
+
+def seq(c, items):
+    """a list of multiplicands as the case's ``_lseq`` asks: the list itself, or a tuple"""
+    if isinstance(c, dict) and c.get("_lseq") == "tuple" and isinstance(items, list):
+        return tuple(items)
+    return items
+
+
+PRESENT_ONLY = ("readonly", "float32", "int32", "int64", "neg-strided", "strided", "F-order")
+
+
+def aux_present(c, a):
+    """like ``aux``, restricted to the modes that keep the values (used for the values of an item assignment)"""
+    return aux(c, a) if isinstance(c, dict) and c.get("_aux") in PRESENT_ONLY else a
 
 
 def aux(c, a):
@@ -238,6 +350,12 @@ def aux(c, a):
         return a * 1e9
     if m == "F-order":
         return np.asfortranarray(a)
+    if m in ("readonly", "float32", "int32", "neg-strided"):
+        return present(a, m)
+    if m == "coo":
+        # scipy.sparse matrices are documented multiplicands of tensor.ttm only; elsewhere the request is rejected (and
+        # must then leave its operands alone: class 12)
+        return present(a, "coo") if a.ndim == 2 and a.size else a
     if m == "strided" and a.ndim >= 1 and a.size:
         big = np.full(tuple(2 * n for n in a.shape), 9.0)
         v = big[tuple(slice(0, 2 * n, 2) for n in a.shape)]
